@@ -54,4 +54,15 @@ def OTree.leavesList : List OTree → List (Nat × DType)
   | c :: cs => c.leaves ++ OTree.leavesList cs
 end
 
+mutual
+/-- `apply(function)`: `fresh` is the identity of the clone of an object, `g` the identity of what the function returns for it,
+`h` the dtype of what it returns -/
+def OTree.apply (fresh g : Nat → Nat) (h : DType → DType) : OTree → OTree
+  | .leaf id dt => .leaf (g (fresh id)) (h dt)
+  | .node cs => .node (OTree.applyList fresh g h cs)
+def OTree.applyList (fresh g : Nat → Nat) (h : DType → DType) : List OTree → List OTree
+  | [] => []
+  | c :: cs => OTree.apply fresh g h c :: OTree.applyList fresh g h cs
+end
+
 end M
